@@ -863,6 +863,57 @@ func vfC11ClientCertVerifyScheme(t *testing.T, res *vfResult, ver string, client
 	synctest.Wait()
 }
 
+// vfC11RSAKeyUnder13: DTLS 1.3 on both sides and an RSA key on the side that has to sign. This tree cannot send an
+// RSA-PSS CertificateVerify, so no usable signature scheme exists: the handshake has to fail on both sides with an
+// alert, not on one side silently while the other runs into its timeout.
+func vfC11RSAKeyUnder13(t *testing.T, res *vfResult, signer string) {
+	pki := vfGetPKI()
+	res.Eval(1)
+	cO, sO := vfV13(), vfV13()
+	so := vfSO(sO...)
+	if signer == "server" {
+		cO = append(cO, WithInsecureSkipVerify(true))
+		so = append(so, vfSO(WithCertificates(pki.Leaf("rsa", "server")))...)
+	} else {
+		cO = append(cO, WithInsecureSkipVerify(true), WithCertificates(pki.Leaf("rsa", "client")))
+		so = append(so, vfSO(WithCertificates(pki.Leaf("ecdsa", "server")))...)
+		so = append(so, WithClientAuth(RequireAnyClientCert))
+	}
+	n := vfNewNet()
+	p, err := vfNewPair(n, vfCO(cO...), so)
+	id := "rsa-key-under-dtls13/" + signer
+	if err != nil {
+		res.Count("config_rejected", 1)
+		res.Seen("config_rejected_cases", id+": "+err.Error())
+
+		return
+	}
+	cerr, serr := p.Handshake(30 * time.Second)
+	res.NonTrivial(id)
+	res.Count("rsa_under_13_cases", 1)
+	alerts := 0
+	for _, w := range n.Emissions("") {
+		if strings.Contains(vfDescribe(w.Data, 0), "Alert") || strings.Contains(vfDescribe(w.Data, 0), "T21") {
+			alerts++
+		}
+	}
+	res.Seen("rsa_under_13_outcomes", fmt.Sprintf("%s: client=%s server=%s", id, vfErrNorm(cerr), vfErrNorm(serr)))
+	switch {
+	case cerr == nil && serr == nil:
+		res.Count("rsa_under_13_completed", 1) // a tree that can sign RSA-PSS
+	case cerr == nil || serr == nil:
+		res.Violate("C11:one-sided-completion:rsa-key-under-dtls13:"+signer, fmt.Sprintf("%s: client=%v server=%v", id, cerr, serr), map[string]any{"rsa13": signer})
+	case vfErrNorm(cerr) == "deadline" || vfErrNorm(serr) == "deadline":
+		res.Violate("C11:failure-without-alert:rsa-key-under-dtls13:"+signer,
+			fmt.Sprintf("%s: no signature scheme is usable, one side gave up without telling the other, which waited for its timeout: client=%v server=%v (alert records seen on the wire: %d)", id, cerr, serr, alerts),
+			map[string]any{"rsa13": signer})
+	default:
+		res.Count("rsa_under_13_failed_on_both_sides_with_alert", 1)
+	}
+	p.Close()
+	synctest.Wait()
+}
+
 func TestVF_C11(t *testing.T) {
 	vfGetPKI()
 	res := vfNewResult("C11", "generated pairs of option sets (version range x suite lists x curves x signature schemes x key type/PSK x EMS policy x "+
@@ -921,6 +972,7 @@ func TestVF_C11(t *testing.T) {
 	vfBubbles(t, len(ccvs), func(t *testing.T, i int) {
 		vfC11ClientCertVerifyScheme(t, res, ccvs[i].ver, ccvs[i].schemes, ccvs[i].tag)
 	})
+	vfBubbles(t, 2, func(t *testing.T, i int) { vfC11RSAKeyUnder13(t, res, []string{"server", "client"}[i]) })
 	res.Floor("negotiations_checked", int64(nc/10))
 	res.Floor("refused_incompatible", int64(nc/20))
 	res.Finish(t)
